@@ -10,6 +10,12 @@ use crate::{Error, Result};
 /// - For single compression: the compression method byte followed by compressed data
 /// - For multiple compression: the combined flags byte followed by compressed data
 pub fn compress(data: &[u8], method: u8) -> Result<Vec<u8>> {
+    // With the method byte nothing can be saved on a single byte (e.g. the last
+    // sector of a file), and not every encoder accepts such an input
+    if data.len() <= 1 {
+        return Ok(data.to_vec());
+    }
+
     // Check if compression actually reduces size
     let compressed = compress_internal(data, method)?;
 
